@@ -32,12 +32,21 @@ ZSIM = r'''package runtime
 var simRandOn uint32
 var simRandState uint64
 var simSelState uint64
+var simMapConst uint64
 
 // SimSetRand turns deterministic select/map/math-rand randomness on (seed != 0)
 // or off for goroutines that run inside a synctest bubble.
 func SimSetRand(seed uint64) {
 	simRandState = seed
 	simSelState = seed ^ 0x2545f4914f6cdd1d
+	// Map seeds and iteration offsets are one per-run constant, not draws from
+	// the stream: how many maps library code creates or walks depends on
+	// sync.Pool hits, i.e. on garbage collection timing, and must not shift
+	// what math/rand returns to kevo.
+	z := seed + 0x632be59bd9b4e019
+	z = (z ^ (z >> 30)) * 0xbf58476d1ce4e5b9
+	z = (z ^ (z >> 27)) * 0x94d049bb133111eb
+	simMapConst = z ^ (z >> 31)
 	if seed != 0 {
 		simRandOn = 1
 	} else {
@@ -86,6 +95,8 @@ def main():
     files["rand.go"] = patch(os.path.join(rt, "rand.go"), [
         ("func rand() uint64 {\n",
          "func rand() uint64 {\n\tif simRandOn != 0 {\n\t\tif getg().bubble != nil {\n\t\t\treturn simnext()\n\t\t}\n\t}\n"),
+        ("func maps_rand() uint64 {\n",
+         "func maps_rand() uint64 {\n\tif simRandOn != 0 {\n\t\tif getg().bubble != nil {\n\t\t\treturn simMapConst\n\t\t}\n\t}\n"),
     ])
     files["alg.go"] = patch(os.path.join(rt, "alg.go"), [
         ("\t\thashkey[i] = uintptr(bootstrapRand())\n",
